@@ -4,6 +4,7 @@
 cd "$(dirname "$0")/.."
 wt="$1"; shift
 tools/mutbuild.sh "$wt" || exit 3
+mkdir -p /tmp/seedcheck-out && cp known_findings.json /tmp/seedcheck-out/
 for p in "$@"; do
   out=$(VERIF_DIR=/tmp/seedcheck-out ./bin/vcheck-mut $p --tier ${TIER:-quick} 2>&1); rc=$?
   echo "== $p rc=$rc: $(echo "$out" | tail -1)"
